@@ -381,9 +381,9 @@ theorem version_contains_iff (hT : h.Topo) (hu : TagsUnique h) {pl : Plug π β}
     · -- `cv` is not a build: the nearest build below it
       have hxne : ex ≠ cv := by
         intro hh; subst hh; exact hat ⟨bx, hbx, hex⟩
-      rcases rgraph_skip hT hg j b rb hb hrb cv hspec with hrep | ⟨_, hsk⟩
+      rcases rgraph_skip hT (RelInv.trivial h pl) hg j b rb hb hrb cv hspec with hrep | ⟨_, hsk⟩
       · exact absurd hrep hat
-      · rcases hsk with ⟨_, hnone⟩ | ⟨cm', pbs, bumps, _, hlen1, hpbs, hcof, _, _⟩
+      · rcases hsk with ⟨_, hnone⟩ | ⟨cm', pbs, bumps, _, _, _, hlen1, hpbs, hcof, _, _⟩
         · exfalso
           obtain ⟨hn, rcx, hrcx, hcx⟩ := hex
           exact hnone bx ⟨hbx, hn⟩ rcx hrcx (by rw [hcx]; exact hxne) (by rw [hcx]; exact hanc)
